@@ -368,6 +368,8 @@ func NewMultiGetPlan(s Storage, f *FilterExec, keys []string) Plan {
 }
 
 func (p *MultiGetPlan) Init() error {
+	// Start over from the first key, as the cursor plans do
+	p.idx = 0
 	return nil
 }
 
